@@ -39,6 +39,10 @@ def f(a, b=1, *rest, k=2):
     return a + 2 * b + sum(rest) + 3 * k
 def g(a, b):
     return (a, [b, a])
+from scenic.core.distributions import distributionFunction
+@distributionFunction
+def h(a, b=1, *rest, k=2):
+    return a + 2 * b + sum(rest) + 3 * k
 """
 
 # ---------------------------------------------------------------------------------------------------
@@ -97,14 +101,14 @@ class Gen:
         if d <= 0 or r.random() < 0.2:
             return self.leaf(ty) if r.random() < 0.8 else self.const(ty)
         k = r.choice(
-            ["bin", "bin", "bin", "rbin", "ident", "unary", "func", "call", "vec2s", "tup2s", "method", "round", "pospow"]
+            ["bin", "bin", "bin", "rbin", "rbin", "ident", "ident", "unary", "func", "call", "call", "vec2s", "tup2s", "method", "round", "pospow"]
         )
         if k == "bin":
             op = r.choice(["+", "-", "*"])
             return ("bin", op, self.scalar(d - 1), self.scalar(d - 1))
         if k == "rbin":
             op = r.choice(["+", "-", "*", "/", "//", "%", "**"])
-            c = self.const(r.choice("SI"))
+            c = self.const(r.choice("SI")) if r.random() < 0.7 else ("const", r.choice([0, 1, 1.0]))
             x = self.pos(d - 1)
             if op == "**":
                 x = self.small(d - 1)
@@ -126,7 +130,7 @@ class Gen:
             return ("fn", fn, self.scalar(d - 1), self.scalar(d - 1))
         if k == "call":
             form = r.choice(["pos", "kw", "star", "allkw", "mixed"])
-            return ("call", form, self.scalar(d - 1), self.scalar(d - 1), self.scalar(d - 1) if form in ("kw", "mixed") else self.tuple_(d - 1))
+            return (r.choice(["call", "callh"]), form, self.scalar(d - 1), self.scalar(d - 1), self.scalar(d - 1) if form in ("kw", "mixed") else self.tuple_(d - 1))
         if k == "vec2s":
             m = r.choice(["x", "y", "z", "idx", "norm", "distanceTo", "angleTo", "dot"])
             if m in ("distanceTo", "angleTo", "dot"):
@@ -236,11 +240,12 @@ def show(e):
         return f"round({show(e[1])})" if e[2] is None else f"round({show(e[1])}, {e[2]})"
     if k == "fn":
         return f"{e[1]}({', '.join(show(a) for a in e[2:])})"
-    if k == "call":
+    if k in ("call", "callh"):
         a, b, c = show(e[2]), show(e[3]), show(e[4])
+        fn = "f" if k == "call" else "h"  # h is the same function wrapped by scenic's distributionFunction
         return {
-            "pos": f"f({a}, {b})", "kw": f"f({a}, b={b}, k={c})", "star": f"f({a}, *{c})", "allkw": f"f(a={a}, b={b})",
-            "mixed": f"f({a}, {b}, {c}, 2, k={a})",
+            "pos": f"{fn}({a}, {b})", "kw": f"{fn}({a}, b={b}, k={c})", "star": f"{fn}({a}, *{c})", "allkw": f"{fn}(a={a}, b={b})",
+            "mixed": f"{fn}({a}, {b}, {c}, 2, k={a})",
         }[e[1]]
     if k == "v2s":
         v = show(e[2])
@@ -379,7 +384,7 @@ def ev(e, env):
     if k == "fn":
         args = [ev(a, env) for a in e[2:]]
         return {"sin": math.sin, "cos": math.cos, "hypot": math.hypot, "max": max, "min": min}[e[1]](*args)
-    if k == "call":
+    if k in ("call", "callh"):
         a, b, c = ev(e[2], env), ev(e[3], env), ev(e[4], env)
         if e[1] == "pos":
             return _f(a, b)
@@ -491,7 +496,7 @@ def has_topt(e):
 
 def kinds(e, out):
     if isinstance(e, tuple) and e and isinstance(e[0], str):
-        tag = e[0] + (":" + str(e[1]) if e[0] in ("bin", "ident", "un", "fn", "call", "v2s", "t2s", "meth", "vec", "vop", "c") else "")
+        tag = e[0] + (":" + str(e[1]) if e[0] in ("bin", "ident", "un", "fn", "call", "callh", "v2s", "t2s", "meth", "vec", "vop", "c") else "")
         out.add(tag)
         for x in e[1:]:
             kinds(x, out)
@@ -570,6 +575,25 @@ def deep_resolve(v):
 # ---------------------------------------------------------------------------------------------------
 
 
+SUB_KINDS = {"bin", "ident", "un", "round", "fn", "call", "callh", "v2s", "t2s", "vop", "vec", "tslice", "tstar"}
+
+
+def subnodes(e, out=None, limit=10):
+    """proper sub-expressions worth checking on their own (operators, calls, vector / tuple operations)"""
+    if out is None:
+        out = []
+    if isinstance(e, tuple) and e and isinstance(e[0], str):
+        for x in e[1:]:
+            if isinstance(x, tuple) and x and isinstance(x[0], str) and x[0] in SUB_KINDS and _is_dist(x) and len(out) < limit:
+                if x not in out:
+                    out.append(x)
+            subnodes(x, out, limit)
+    elif isinstance(e, (list, tuple)):
+        for x in e:
+            subnodes(x, out, limit)
+    return out
+
+
 def make_program(exprs, gen, topts):
     lines = [HEADER]
     for name, txt, ty, info in gen.leaves:
@@ -581,6 +605,8 @@ def make_program(exprs, gen, topts):
     for i, e in enumerate(exprs):
         lines.append(f"E{i} = {show(e)}")
         lines.append(f"param E{i} = E{i}")
+        for j, sub in enumerate(subnodes(e)):
+            lines.append(f"param E{i}_{j} = {show(sub)}")
     lines.append("ego = new Object")
     return "\n".join(lines) + "\n"
 
@@ -700,8 +726,13 @@ def check_program(exprs, gen, res, bump, nscenes, seed):
             cands = [tuple(ev(a, env) for a in alt) for alt in alts]
             if not any(same(c, got) is None for c in cands):
                 res["violations"].append({"key": None, "what": f"Options over tuples {name} sampled {got!r}, not one of {cands}", "witness": {"program": src}})
+        items = []
         for i, e in enumerate(exprs):
-            got = scene.params[f"E{i}"]
+            items.append((f"E{i}", e))
+            for j, sub in enumerate(subnodes(e)):
+                items.append((f"E{i}_{j}", sub))
+        for pname, e in items:
+            got = scene.params[pname]
             try:
                 ref = deep_resolve(ev(e, env))
             except Exception as ex:  # reference undefined (overflow, ...): skipped and counted
@@ -713,7 +744,8 @@ def check_program(exprs, gen, res, bump, nscenes, seed):
                 bump("mismatches")
                 text = show(e)
                 key = classify_mismatch(text, m, got)
-                if key is None and random_self_scalarop(e) and _contains_distribution(got):
+                if key is None and random_self_scalarop(e):
+                    # (the un-sampled coordinates leak into the value, or into later arithmetic on it)
                     key = "vectors.scalarOperator-ignores-random-self"
                 if key is None and "// 1)" in text:
                     FLOORDIV_ONE_IS_IDENTITY[0] = True
@@ -732,7 +764,7 @@ def check_program(exprs, gen, res, bump, nscenes, seed):
                     }
                 )
             # support interval
-            d = scenario.params.get(f"E{i}")
+            d = scenario.params.get(pname)
             if isinstance(d, Distribution) and isinstance(got, (int, float)) and not isinstance(got, bool):
                 try:
                     lo, hi = supportInterval(d)
@@ -744,8 +776,13 @@ def check_program(exprs, gen, res, bump, nscenes, seed):
                     bump("support_intervals_nontrivial")
                 eps = 1e-9 * max(1.0, abs(got))
                 if (lo is not None and got < lo - eps) or (hi is not None and got > hi + eps):
+                    skey = None
+                    if "hypot(" in show(e) and lo is not None and hi is not None and lo > hi:
+                        # geometry.hypot is declared monotonic (support = hypot of the lower / of the upper bounds),
+                        # which is wrong as soon as an argument can be negative
+                        skey = "geometry.hypot-support-assumes-monotonic"
                     res["violations"].append(
-                        {"key": None, "what": f"E = {show(e)}: sampled value {got!r} outside its static support interval ({lo}, {hi})", "witness": {"program": src, "expr": show(e), "seed": seed}}
+                        {"key": skey, "what": f"E = {show(e)}: sampled value {got!r} outside its static support interval ({lo}, {hi})", "witness": {"program": src, "expr": show(e), "seed": seed}}
                     )
     return []
 
